@@ -71,9 +71,13 @@ def main() -> int:
         out["demo_patched_tail"] = " | ".join(o.strip().splitlines()[-3:])[:400]
         fired, errors, details = [], [], {}
         props = args.props.split(",") if args.props else [f"C{i:02d}" for i in range(1, 21)]
-        for prop in props:
-            rc, o = run([PY, os.path.join(VERIF, "check"), prop, "--repo", tmp, "--evidence-dir",
-                         os.path.join(tmp, "ev")])
+        from concurrent.futures import ThreadPoolExecutor
+
+        def _one(prop):
+            return (prop,) + run([PY, os.path.join(VERIF, "check"), prop, "--repo", tmp, "--evidence-dir", os.path.join(tmp, "ev")])
+        with ThreadPoolExecutor(10) as ex:
+            results = list(ex.map(_one, props))
+        for prop, rc, o in results:
             if rc == 1:
                 fired.append(prop)
                 details[prop] = [l.strip()[:260] for l in o.splitlines() if " — R" in l][:4]
